@@ -33,25 +33,35 @@ theorem rowDict_take : ∀ (hs : List (Option Str)) (cs : List Cell) (acc : Row)
     simp only [List.length_cons, List.take_succ_cons, rowDict]
     exact rowDict_take hs cs _
 
-/-- the inner loop of `get_excel_rows` on cells that show the texts `ts` builds the dict-container row -/
+theorem replaceNbsp_of_not_mem (t : Str) (h : nbsp ∉ t) : replaceNbsp t = t := by
+  unfold replaceNbsp
+  conv => rhs; rw [← List.map_id t]
+  apply List.map_congr_left
+  intro c hc
+  have : c ≠ nbsp := fun e => h (e ▸ hc)
+  simp [this]
+
+/-- the inner loop of `get_excel_rows` on cells that show the texts `ts` (none of which holds a U+00A0:
+`cellText` never delivers one) builds the dict-container row -/
 theorem rowDict_zip : ∀ (hdr : List Str) (cs : List Cell) (ts : List Str) (acc : Row),
-    cs.map cellText = ts.map toOpt →
+    cs.map cellText = ts.map toOpt → (∀ t ∈ ts, nbsp ∉ t) →
     liftRow (rowDict (hdr.map some) cs acc) = zipDict hdr ts (liftRow acc)
-  | [], cs, ts, acc, _ => by cases ts <;> simp [rowDict, zipDict]
-  | h :: hs, [], ts, acc, hm => by
+  | [], cs, ts, acc, _, _ => by cases ts <;> simp [rowDict, zipDict]
+  | h :: hs, [], ts, acc, hm, _ => by
     cases ts with
     | nil => simp [rowDict, zipDict]
     | cons t ts => simp at hm
-  | h :: hs, c :: cs, [], acc, hm => by simp at hm
-  | h :: hs, c :: cs, t :: ts, acc, hm => by
+  | h :: hs, c :: cs, [], acc, hm, _ => by simp at hm
+  | h :: hs, c :: cs, t :: ts, acc, hm, hn => by
     simp only [List.map_cons, List.cons.injEq] at hm
     obtain ⟨hc, hrest⟩ := hm
+    have hn' : ∀ t' ∈ ts, nbsp ∉ t' := fun t' ht' => hn t' (by simp [ht'])
     simp only [List.map_cons, rowDict, zipDict, hc]
     by_cases ht : t = []
     · simp only [ht, toOpt, if_true]
-      exact rowDict_zip hs cs ts acc hrest
+      exact rowDict_zip hs cs ts acc hrest hn'
     · simp only [toOpt, ht, if_false]
-      rw [rowDict_zip hs cs ts _ hrest, liftRow_dset]
+      rw [rowDict_zip hs cs ts _ hrest hn', liftRow_dset, replaceNbsp_of_not_mem t (hn t (by simp))]
 
 /-! ## headers -/
 
@@ -128,18 +138,18 @@ def Shows (s : Sheet) (g : Grid) : Prop :=
     rowsCells.map (·.map cellText) = s.rows.map (·.map toOpt)
 
 theorem rows_of_cells (hdr : List Str) : ∀ (rowsCells : List (List Cell)) (rows : List (List Str)),
-    rowsCells.map (·.map cellText) = rows.map (·.map toOpt) →
+    rowsCells.map (·.map cellText) = rows.map (·.map toOpt) → (∀ r ∈ rows, ∀ t ∈ r, nbsp ∉ t) →
     ((rowsCells.map fun r => r.take (hdr.map some).length).map fun r => rowDict (hdr.map some) r []).map liftRow
       = rows.map (sheetRow hdr)
-  | [], [], _ => rfl
-  | [], _ :: _, h => by simp at h
-  | _ :: _, [], h => by simp at h
-  | c :: cs, r :: rs, h => by
+  | [], [], _, _ => rfl
+  | [], _ :: _, h, _ => by simp at h
+  | _ :: _, [], h, _ => by simp at h
+  | c :: cs, r :: rs, h, hn => by
     simp only [List.map_cons, List.cons.injEq] at h
     simp only [List.map_cons, rowDict_take, sheetRow]
-    rw [rowDict_zip hdr c r [] h.1]
+    rw [rowDict_zip hdr c r [] h.1 (hn r (by simp))]
     congr 1
-    exact rows_of_cells hdr cs rs h.2
+    exact rows_of_cells hdr cs rs h.2 (fun r' hr' => hn r' (by simp [hr']))
 
 structure SheetX (s : Sheet) : Prop where
   ascii : isAscii s.name = true
@@ -148,12 +158,13 @@ structure SheetX (s : Sheet) : Prop where
   nodup : s.header.Nodup
   runs : runsInt Gen.maxEmptyRowRun 0 (dictRows s) = true
   trail : stripTrailing (·.isEmpty) (dictRows s) = dictRows s
+  nonbsp : ∀ r ∈ s.rows, ∀ t ∈ r, nbsp ∉ t
 
 theorem sheetOK_unpack (s : Sheet) (h : sheetOK s = true) : SheetX s := by
-  simp only [sheetOK, Bool.and_eq_true, List.all_eq_true, Bool.not_eq_true', beq_iff_eq,
-    List.contains_eq_mem, decide_eq_true_eq, nodupB_iff] at h
-  obtain ⟨⟨⟨⟨⟨h1, h2⟩, h3⟩, h4⟩, h5⟩, h6⟩ := h
-  exact ⟨h1, by simpa [lw] using h2, h3, h4, h5, h6⟩
+  simp only [sheetOK, noTrailingBlank, Bool.and_eq_true, List.all_eq_true, Bool.not_eq_true', beq_iff_eq,
+    List.contains_eq_mem, decide_eq_true_eq, nodupB_iff, decide_eq_false_iff_not] at h
+  obtain ⟨⟨⟨⟨⟨⟨h1, h2⟩, h3⟩, h4⟩, h5⟩, h6⟩, h7⟩ := h
+  exact ⟨h1, by simpa [lw] using h2, h3, h4, h5, h6, h7⟩
 
 /-- **one sheet**: `x*_to_dict_normal_sheet` on a grid showing `s` -/
 theorem sheetOfGrid_shows (s : Sheet) (g : Grid) (hs : Shows s g) (hx : SheetX s) :
@@ -165,7 +176,7 @@ theorem sheetOfGrid_shows (s : Sheet) (g : Grid) (hs : Shows s g) (hx : SheetX s
     induction s.header with
     | nil => rfl
     | cons h hs ih => simp [ih]
-  · have hds := rows_of_cells s.header rowsCells s.rows hcells
+  · have hds := rows_of_cells s.header rowsCells s.rows hcells hx.nonbsp
     unfold getRows
     have hruns : runsInt Gen.maxEmptyRowRun 0
         ((rowsCells.map fun r => r.take (s.header.map some).length).map fun r => rowDict (s.header.map some) r []) = true := by
